@@ -330,8 +330,8 @@ def run(pid, tier, seed, oracle_names, title, feats=None, check_c07=False, extra
         # exact checks are then switched off and the estimates trusted): metric models without duration groups / multipliers, where
         # the declaration is true, and moves that go through the estimates - the exact checks of the USER constraints must still decide
         tf = dict(feats or {}, user=True, user_wait=True, nonmetric=False, dgroups=False, mult=False, windows=True, maxwait_stop=False,
-                  maxwait_veh=False)
-        tri = E.make_cases(seed * 1009 + 1919, nh, size=size, nops=nops, feats=tf, mode="checked_only")
+                  maxwait_veh=False, capacity=False, maxstops=False, attrs=False, maxdist=False, endtime=False, maxdur=False)
+        tri = E.make_cases(seed * 1009 + 1919, nh, size=size, nops=35, feats=tf, mode="checked_only")
         for c in tri:
             c["id"] = "tri" + c["id"]
             c["model"]["triangle"] = True
